@@ -638,12 +638,20 @@ def run_o_nonrefl(inp):
     except GeometryError:
         acc_arr = False
     acc_g = None
+    geo_ends = geo_ends_arr = None
+    acc_g_arr = None
     if inp["dim"] == 2:
         try:
-            H.Geodesic.from_reflection(H.Isometry(M.copy()))
+            geo_ends = np.array(H.Geodesic.from_reflection(H.Isometry(M.copy())).endpoints, dtype=float).tolist()
             acc_g = True
         except GeometryError:
             acc_g = False
+        try:
+            # G13: the twin entry point with the other packaging of the argument (a bare array, read like Isometry(array))
+            geo_ends_arr = np.array(H.Geodesic.from_reflection(M.copy()).endpoints, dtype=float).tolist()
+            acc_g_arr = True
+        except GeometryError:
+            acc_g_arr = False
     wrongdim = None
     if inp["dim"] != 2:
         try:
@@ -652,7 +660,8 @@ def run_o_nonrefl(inp):
         except GeometryError:
             wrongdim = "GeometryError"
     return {"accepted": acc, "accepted_array": acc_arr, "accepted_geodesic": acc_g, "wrongdim": wrongdim,
-            "normal": normal, "array_normal": arr_normal, "wall": g[1].tolist()}
+            "normal": normal, "array_normal": arr_normal, "wall": g[1].tolist(),
+            "accepted_geodesic_array": acc_g_arr, "geo_ends": geo_ends, "geo_ends_array": geo_ends_arr}
 
 
 def judge_o_nonrefl(inp, obs, lr):
@@ -664,6 +673,17 @@ def judge_o_nonrefl(inp, obs, lr):
         return {"expected": "reflections accepted, non-reflections rejected with GeometryError", "observed": obs, "tags": tags}
     if obs["accepted_array"] != want:
         return {"expected": "the same decision for the bare array", "observed": obs, "tags": dict(tags, input="ndarray")}
+    if obs.get("accepted_geodesic_array") is not None and obs["accepted_geodesic_array"] != want:
+        return {"expected": "Geodesic.from_reflection: the same decision for the bare array", "observed": obs, "tags": dict(tags, input="ndarray", entry="Geodesic.from_reflection")}
+    if want and obs.get("geo_ends") is not None:
+        dw = np.array(obs["wall"])
+        Jm = G.J(inp["dim"])
+        for key in ("geo_ends", "geo_ends_array"):
+            for e in np.array(obs[key]):
+                e = e / np.linalg.norm(e)
+                if abs(e @ Jm @ e) > 1e-6 or abs(e @ Jm @ dw) / np.linalg.norm(dw) > 1e-6 * (1 + np.abs(np.array(inp["g"])).max() ** 2):
+                    return {"expected": "Geodesic.from_reflection: ideal endpoints of the wall of the reflection (lightlike, orthogonal to its normal)",
+                            "observed": obs[key], "tags": dict(tags, what=key, entry="Geodesic.from_reflection")}
     if want:
         d = np.array(obs["wall"])       # the reflection is g^-1 L g with L the reflection in e1: its wall is (e1 g)^perp
         d = d / np.linalg.norm(d)
